@@ -108,6 +108,21 @@ def gen_rotation(rng, stream):
         return [[x + 0.0 for x in row] for row in Rm]
     if stream == "exact":
         return [[x + 0.0 for x in row] for row in rng.choice(PERM_ROTATIONS)]
+    if stream == "near":
+        # an axis permutation turned by a tiny angle: axes aligned with the coordinate axes up to
+        # 1e-3 .. 1e-8 rad (1 - a*a ~ angle^2: thresholds like np.isclose(|a|, 1) mistake them for aligned)
+        ang = rng.choice([1e-3, 3e-5, 1e-6, 1e-8])
+        while True:
+            u = [rng.gauss(0, 1) for _ in range(3)]
+            n = normf(u)
+            if n > 1e-3:
+                break
+        x, y, z = [c / n for c in u]
+        cs, sn = math.cos(ang), math.sin(ang)
+        Rs = [[cs + x * x * (1 - cs), x * y * (1 - cs) - z * sn, x * z * (1 - cs) + y * sn],
+              [y * x * (1 - cs) + z * sn, cs + y * y * (1 - cs), y * z * (1 - cs) - x * sn],
+              [z * x * (1 - cs) - y * sn, z * y * (1 - cs) + x * sn, cs + z * z * (1 - cs)]]
+        return matmul(Rs, rng.choice(PERM_ROTATIONS))
     if stream == "lattice":
         Rm = rng.choice(PERM_ROTATIONS)
         r = rng.random()
